@@ -35,6 +35,14 @@ pub fn check_xor(ctx: &mut Ctx, a: &RefAddr, tid: &[u8; 12], through_message: bo
         let other = XorMappedAddress::from_raw(&raw).map(|d| d.addr(imp::tid_from_bytes(&t2b))).ok();
         // written in place into reused (non-zero) buffers, directly and through a message builder
         let mut inplace: Vec<Vec<u8>> = vec![];
+        if through_message {
+            // destinations of 64 KiB and more (a length that does not fit 16 bits)
+            for total in [65_536usize, 65_540, 131_072] {
+                let mut dest = vec![0x3Cu8; total];
+                let n = stun_types::attribute::AttributeWriteExt::write_into(&x, &mut dest).unwrap_or(0);
+                inplace.push(if dest[n.min(total)..].iter().all(|b| *b == 0x3C) { dest[..n].to_vec() } else { vec![] });
+            }
+        }
         for fill in [0xA5u8, 0xFF] {
             let mut dest = vec![fill; 4 + wire.len() + 4];
             let n = stun_types::attribute::AttributeWriteExt::write_into(&x, &mut dest).unwrap_or(0);
